@@ -127,6 +127,34 @@ func deadlockWitness(rec *verifkit.Rec, msg string) {
 	os.Exit(3)
 }
 
+// A watchdog for the calls the harness makes itself (set-up, clean-up, direct operations): if they deadlock, no
+// awaitAll is watching.  The same galene frames blocked in sync.Mutex.Lock for 24 s (12 samples, 2 s apart; the
+// longest legitimate wait in these tests is a paused callback or a slow key derivation, a second or so) is a
+// structural witness like awaitAll's.
+var watchdogOnce sync.Once
+var currentPlan atomic.Value
+
+func startDeadlockWatchdog(rec *verifkit.Rec) {
+	watchdogOnce.Do(func() {
+		go func() {
+			last, same := "", 0
+			for {
+				time.Sleep(2 * time.Second)
+				w := strings.Join(lockWaiters(), "  ||  ")
+				if w != "" && w == last {
+					same++
+				} else {
+					last, same = w, 0
+				}
+				if same >= 12 {
+					plan, _ := currentPlan.Load().(string)
+					deadlockWitness(rec, fmt.Sprintf("property=C13 goroutines blocked in sync.Mutex.Lock for more than 24 s: %s (during: %s)", w, plan))
+				}
+			}
+		}()
+	})
+}
+
 var blockedRE = regexp.MustCompile(`(?s)goroutine \d+ \[sync\.Mutex\.Lock[^\]]*\]:\n(.*?)\n\n`)
 
 // lockWaiters returns the galene functions of goroutines currently blocked on a mutex.
@@ -185,6 +213,7 @@ var c13fRec = verifkit.New("TestVerif_C13_FreeRunning",
 func TestVerif_C13_FreeRunning(t *testing.T) {
 	defer c13fRec.Flush()
 	simSetup()
+	startDeadlockWatchdog(c13fRec)
 	rapid.Check(t, func(t *rapid.T) {
 		desc := map[string]any{"users": map[string]any{"op": map[string]any{"password": "p", "permissions": "op"}, "pres": map[string]any{"password": "p", "permissions": "present"}},
 			"wildcard-user": map[string]any{"password": map[string]any{"type": "wildcard"}, "permissions": "message"}, "allow-recording": true}
@@ -541,6 +570,7 @@ var c13dRec = verifkit.New("TestVerif_C13_CoordinatedSchedules",
 func TestVerif_C13_CoordinatedSchedules(t *testing.T) {
 	defer c13dRec.Flush()
 	simSetup()
+	startDeadlockWatchdog(c13dRec)
 	rapid.Check(t, func(t *rapid.T) {
 		desc := map[string]any{"users": map[string]any{"op": map[string]any{"password": "p", "permissions": "op"}},
 			"wildcard-user": map[string]any{"password": map[string]any{"type": "wildcard"}, "permissions": "message"}}
@@ -587,6 +617,7 @@ func TestVerif_C13_CoordinatedSchedules(t *testing.T) {
 			// the statistics page walking the members while a member's loop sets up a connection
 			pauseIn, first, second = "GetStats", "stats", "web-offer"
 		}
+		currentPlan.Store(fmt.Sprintf("coordinated schedule: %q paused in F.%s, meanwhile %q, group option %s (or the set-up / clean-up around it)", first, pauseIn, second, opt))
 		entered := make(chan struct{}, 1)
 		release := make(chan struct{})
 		var once sync.Once
